@@ -859,6 +859,52 @@ def r18_10(ctx, counts) -> RuleResult:
     return res
 
 
+def r18_11(ctx, counts) -> RuleResult:
+    """argument type checking: an xs:boolean is not an xs:integer"""
+    from ..engine.cfg import CFG
+    from ..engine.dataflow import branch_facts
+    model: Model = ctx.model
+    res = RuleResult(
+        'R18.11', 'BOOLEAN-IS-NOT-INTEGER',
+        'XPathToken.validated_value(item, cls) is the check behind get_argument(.., cls=C) for '
+        'the parameters of the built-in functions. bool is a subclass of int in Python, so '
+        '`isinstance(true, int)` holds: every `return v` of that function taken because '
+        '`isinstance(v, cls)` held is also under a fact that excludes the pair (v is a bool, cls '
+        'is int). Otherwise insert-before((1,2), true(), 3), remove((1,2), true()) and '
+        'array:get([1,2], true()) use true() as the position 1 instead of raising XPTY0004.')
+    f = model.find_class('XPathToken').methods.get('validated_value')
+    if f is None:
+        raise AnalysisError('XPathToken.validated_value vanished')
+    cfg = CFG(f.node)
+    facts = branch_facts(cfg)
+    n = 0
+    for nd in cfg.nodes:
+        if nd.kind != 'stmt' or not isinstance(nd.ast, ast.Return) \
+                or not isinstance(nd.ast.value, ast.Name):
+            continue
+        v = nd.ast.value.id
+        fs = facts[nd.id]
+        by_class = [fa for fa in fs if fa.startswith('+') and f'isinstance({v}, cls)' in fa]
+        if not by_class:
+            continue
+        n += 1
+        excl = [fa for fa in fs if fa.startswith('-') and f'isinstance({v}, bool)' in fa]
+        res.instances.append(f'{f.key}: L{nd.ast.lineno} `return {v}` under {by_class[0][:50]}: '
+                             f'bool/int excluded: {bool(excl)}')
+        if excl:
+            res.ok()
+        else:
+            res.fail(finding('R18.11', f, nd.ast, f'return {v} accepts bool as int',
+                             f'`return {v}` accepts the value because isinstance({v}, cls) holds, '
+                             f'with no exclusion of a bool when cls is int: true() is accepted '
+                             f'as the xs:integer 1 by every function that asks for an integer '
+                             f'argument (insert-before, remove, array:get, ...)'))
+    counts['class_accepting_returns'] = n
+    if n < 2:
+        raise AnalysisError(f'validated_value: returns under isinstance(v, cls): {n} < 2')
+    return res
+
+
 def run(ctx) -> dict:
     counts: dict[str, int] = {}
     from .c10_datatypes import r10_1, SPEC as C10SPEC
@@ -872,7 +918,7 @@ def run(ctx) -> dict:
     r4.title = 'JUDGEMENT-PURITY (R18.4 = R05.1 on the sequence-type judgement code)'
     results = [r18_1(ctx, counts), r18_2(ctx, counts), r3, r4, r18_6(ctx, counts),
                r18_7(ctx, counts), r18_8(ctx, counts),
-               r18_9(ctx, counts), r18_10(ctx, counts)]
+               r18_9(ctx, counts), r18_10(ctx, counts), r18_11(ctx, counts)]
     return {
         'results': results, 'counts': counts,
         'explanation':
